@@ -219,5 +219,4 @@ def flat(o):
 
 
 def replay(obj):
-    print(obj)
-    return 1
+    return "rerun"      # regenerated deterministically from the recorded seed (vlib/main.py)
